@@ -608,14 +608,13 @@ static void run_bound(uint64_t seed, int level)
 /* ------------------------------------------------------------------ multistream / projection */
 /* Tie of the per-stream budget split (opus_multistream_encoder.c:976-984): the `curr_max` each stream's opus_encode_native
    call received, against the model's msCurrMax at the byte offset where that stream starts in the returned packet. */
-static void emit_mscurr(const unsigned char *pkt, int ret, int streams, int fs, int afs, int out, int vbr, int br, int nch)
+static void emit_mscurr(const unsigned char *pkt, int ret, int streams, int fs, int afs, int out, int vbr, int br, int nch, int fam, int coupled)
 {
-   int s, off = 0;
+   int s, off = 0, lfe = (fam == 1 && nch >= 6) ? streams - 1 : -1, amb = fam == 2;   /* opus_multistream_surround_encoder_init :549-578 */
    if (ret < 1 || g_ms_n != streams) return;
-   if (!vbr && br == OPUS_AUTO) return;                       /* the clamp of :882 needs rate_sum, which is not visible here */
    if (br > 0) br = IMIN(300000 * nch, IMAX(500 * nch, br));   /* opus_multistream_encoder_ctl(OPUS_SET_BITRATE) */
    for (s = 0; s < streams; s++) {
-      printf("I encskel mscurr2 %d %d %d %d %d %d %d %d\nO v=%d\n", streams, fs, afs, vbr, br, out, off, s, g_ms_out[s]);
+      printf("I encskel mscurr3 %d %d %d %d %d %d %d %d %d %d %d\nO v=%d\n", streams, coupled, lfe, amb, fs, afs, vbr, br, out, off, s, g_ms_out[s]);   /* incl. CBR with OPUS_AUTO: the clamp of :882 uses the model's rate_allocation */
       if (s < streams - 1) {
          unsigned char toc; opus_int16 size[48]; opus_int32 po = 0;
          int cnt = opus_packet_parse_impl(pkt + off, ret - off, 1, &toc, NULL, size, NULL, &po, NULL, NULL);
@@ -655,7 +654,7 @@ static void run_ms(uint64_t seed, long sessions)
          gen_pcm(&r, kind, x, afs, ch, fs, &phase);
          g_ms_n = 0;
          if (ms) err = opus_multistream_encode_float(ms, x, afs, o, out); else err = opus_projection_encode_float(pj, x, afs, o, out);
-         emit_mscurr(o, err, streams, fs, afs, out, cur_vbr, cur_br, ch);
+         emit_mscurr(o, err, streams, fs, afs, out, cur_vbr, cur_br, ch, fam, coupled);
          { int nb = err > 0 ? opus_packet_get_nb_samples(o, 1, fs) : 0;   /* first stream only; duration check is per stream below */
            printf("# MS fam=%d fs=%d ch=%d streams=%d coupled=%d afs=%d out=%d vbr=%d br=%d ret=%d\n", fam, fs, ch, streams, coupled, afs, out, cur_vbr, cur_br, err); (void)nb; }
          check_guard();
@@ -795,7 +794,7 @@ static void run_mssweep(uint64_t seed, int level)
       if (fam == 3) pj = opus_projection_ambisonics_encoder_create(fs, ch, 3, &streams, &coupled, OPUS_APPLICATION_AUDIO, &err);
       else ms = opus_multistream_surround_encoder_create(fs, ch, fam, &streams, &coupled, mapping, OPUS_APPLICATION_AUDIO, &err);
       if (!ms && !pj) continue;
-      br = vi == 0 && vchance(&r, 30) ? OPUS_BITRATE_MAX : 150000 * streams;
+      br = vi == 0 && vchance(&r, 30) ? OPUS_BITRATE_MAX : vi == 0 && vchance(&r, 45) ? OPUS_AUTO : 150000 * streams;
       if (ms) { opus_multistream_encoder_ctl(ms, OPUS_SET_BITRATE(br)); opus_multistream_encoder_ctl(ms, OPUS_SET_VBR(vi)); opus_multistream_encoder_ctl(ms, OPUS_SET_COMPLEXITY(4)); }
       else { opus_projection_encoder_ctl(pj, OPUS_SET_BITRATE(br)); opus_projection_encoder_ctl(pj, OPUS_SET_VBR(vi)); opus_projection_encoder_ctl(pj, OPUS_SET_COMPLEXITY(4)); }
       for (out = 1; out <= 600; out++) {
@@ -804,7 +803,7 @@ static void run_mssweep(uint64_t seed, int level)
          g_quiet = 1; g_ms_n = 0;
          ret = ms ? opus_multistream_encode_float(ms, x, afs, o, out) : opus_projection_encode_float(pj, x, afs, o, out);
          g_quiet = 0;
-         emit_mscurr(o, ret, streams, fs, afs, out, vi, br, ch);
+         emit_mscurr(o, ret, streams, fs, afs, out, vi, br, ch, fam, coupled);
          printf("# MS fam=%d fs=%d ch=%d streams=%d coupled=%d afs=%d out=%d vbr=%d br=%d ret=%d\n", fam, fs, ch, streams, coupled, afs, out, vi, br, ret);
          check_guard();
       }
